@@ -245,7 +245,7 @@ def blank_line_clamp(ctx, rid):
     if f is None:
         r.undecidable(rid, "FmtVisitor::push_vertical_spaces not found")
         return
-    PURE = ("blank_lines", "saturating_sub", "::min", "::max", "::clamp", "::chars", "::rev", "take_while", "::count", "trailing", "newline")
+    PURE = ("blank_lines", "saturating_sub", "saturating_add", "::min", "::max", "::clamp", "::chars", "::rev", "take_while", "::count", "trailing", "newline")
     try:
         paths = explore(f, is_effect=lambda c: c.name.endswith("push_str") or c.name.endswith("::repeat") or c.name.endswith("::push"),
                         pure=lambda c: any(x in c.name for x in PURE), max_paths=20000, program=p, inline="auto")
@@ -274,8 +274,10 @@ def blank_line_clamp(ctx, rid):
                     cons.append(alts)
             forms = [fm for c, fm in res_alts] + [x for a in cons for alt in a for x in alt] + [x for c, fm in res_alts for x in c]
             atoms = la.atoms_of(forms)
-            up = [a for a in atoms if "blank_lines_upper_bound" in a]
-            lo = [a for a in atoms if "blank_lines_lower_bound" in a]
+            # `bound.saturating_add(1)` is an atom of its own, tied to the getter's atom by linarith's constraints (s ≤ bound + 1)
+            sat = [a for a in atoms if "saturating_add(" in a and ("blank_lines_upper_bound" in a or "blank_lines_lower_bound" in a)]
+            up = [a for a in atoms if "blank_lines_upper_bound" in a and a not in sat]
+            lo = [a for a in atoms if "blank_lines_lower_bound" in a and a not in sat]
             off = [a for a in atoms if ".buffer" in a]
             # the count of newlines already in the buffer, computed by a private helper of the visitor (`self.trailing_newline_count()`)
             for a in sorted(atoms):
@@ -284,7 +286,7 @@ def blank_line_clamp(ctx, rid):
                 hs = [h for h in p.by_crate["rustfmt_nightly"] if h.kind != "Closure" and h.argc == 1 and a[:-len("(arg1)")].endswith(short(h.id))]
                 if len(hs) == 1 and "usize" in hs[0].locals[0] and any(str(fld) == "buffer" for (adt, var, fld, mode, bb, line) in hs[0].field_accesses()):
                     off.append(a)
-            opaque = sorted(a for a in atoms if a not in up + lo + off and a != "arg2")
+            opaque = sorted(a for a in atoms if a not in up + lo + off + sat and a != "arg2")
             if opaque:
                 # an operation the numeric domain does not model took part in the count: no verdict either way
                 r.undecidable(rid, "push_vertical_spaces: the count depends on %s, which the numeric domain does not model" % opaque[:3])
